@@ -40,11 +40,12 @@ Proof.
     destruct (accessors_in_bounds f Ev) as (Hid & _ & _ & Hdata & _).
     rewrite (identifier_agrees f Hw), Hid, Hdata. cbn [rbind].
     unfold mid_goto_config, mid_set_outconf, mid_goto_meas, mid_meas.
-    destruct (Z.eqb_spec (Z.of_N (nthb f 2)) 48) as [E1|E1].
+    (* the dispatch, whatever the order of the cases in the source *)
+    destruct (Z.eqb_spec (Z.of_N (nthb f 2)) 48) as [E1|E1]; destruct (Z.eqb_spec (Z.of_N (nthb f 2)) 192) as [E2|E2];
+      destruct (Z.eqb_spec (Z.of_N (nthb f 2)) 16) as [E3|E3]; try lia.
     { rewrite (new_message_agrees 49 []) by lia. change (Z.to_N 49) with 49%N. cbn [rbind g_port_write emode econf ealive eport].
       eexists. split; [reflexivity|]. cbn [fst snd]. split; [|exact Hc].
       unfold with_mode. cbn [emode econf ealive eport]. rewrite skipn_app, skipn_all, Nat.sub_diag. reflexivity. }
-    destruct (Z.eqb_spec (Z.of_N (nthb f 2)) 192) as [E2|E2].
     { rewrite (data_agrees f Hw (data_bound f Hw Ev)), Hdata. cbn [rbind].
       assert (Hwd : wf_bytes (sub f (hdr_len f) (N.to_nat (decl_len f)))).
       { unfold sub. apply XS.Proofs.FixedProofs.firstn_wf, XS.Proofs.FixedProofs.skipn_wf. exact Hw. }
@@ -55,7 +56,6 @@ Proof.
       - rewrite skipn_app, skipn_all, Nat.sub_diag. cbn [skipn app]. rewrite HF.
         rewrite (unmarshal_independent bk (firstn (Z.to_nat n) bk) _ Hwd). reflexivity.
       - exact HO. }
-    destruct (Z.eqb_spec (Z.of_N (nthb f 2)) 16) as [E3|E3].
     { rewrite (new_message_agrees 54 []) by lia. change (Z.to_N 54) with 54%N. cbn [rbind g_port_write emode econf ealive eport].
       eexists. split; [reflexivity|]. cbn [fst snd]. split; [|exact Hc].
       unfold with_mode. cbn [emode econf ealive eport]. rewrite skipn_app, skipn_all, Nat.sub_diag. reflexivity. }
@@ -83,15 +83,14 @@ Proof.
   rewrite (validate_ok f Ev). cbn [rbind].
   destruct (accessors_in_bounds f Ev) as (Hi & _ & _ & Hdata & _).
   rewrite (identifier_agrees f Hw), Hi. cbn [rbind].
-  destruct (Z.eqb_spec (Z.of_N (nthb f 2)) 48) as [E1|E1].
+  destruct (Z.eqb_spec (Z.of_N (nthb f 2)) 48) as [E1|E1]; destruct (Z.eqb_spec (Z.of_N (nthb f 2)) 192) as [E2|E2];
+    destruct (Z.eqb_spec (Z.of_N (nthb f 2)) 16) as [E3|E3]; try lia.
   { rewrite (new_message_agrees 49 []) by lia. cbn [rbind g_port_write]. eexists. split; reflexivity. }
-  destruct (Z.eqb_spec (Z.of_N (nthb f 2)) 192) as [E2|E2].
   { rewrite (data_agrees f Hw (data_bound f Hw Ev)), Hdata. cbn [rbind].
     assert (Hwd : wf_bytes (sub f (hdr_len f) (N.to_nat (decl_len f)))).
     { unfold sub. apply XS.Proofs.FixedProofs.firstn_wf, XS.Proofs.FixedProofs.skipn_wf. exact Hw. }
     destruct (unmarshal_conf_agrees_full bk n _ Hwd Hc) as (o' & HU & _). rewrite HU. cbn [rbind].
     rewrite (new_message_agrees 193 []) by lia. cbn [rbind g_port_write]. eexists. split; reflexivity. }
-  destruct (Z.eqb_spec (Z.of_N (nthb f 2)) 16) as [E3|E3].
   { rewrite (new_message_agrees 54 []) by lia. cbn [rbind g_port_write]. eexists. split; reflexivity. }
   cbn [In] in Hid. lia.
 Qed.
